@@ -3,7 +3,7 @@ from __future__ import annotations
 
 import ast
 
-from ..esp import NEW, OLD, SELF, run_function, val_str, valuations
+from ..esp import UNKNOWN, NEW, OLD, SELF, run_function, val_str, valuations
 from ..model import Repo, norm
 from .common import dispatch_ops, op_table, table_stats, trace_str
 
@@ -122,7 +122,7 @@ def clone_def(repo: Repo, rep):
         rep.undecided("R-CLONE-DEF", "clone has no parameter")
         return
     pname = f.params[0]
-    v = next(valuations())
+    v = UNKNOWN
     outs, eng = run_function(repo, f, v)
     rets = [o for o in outs if o.kind == "ret"]
     excs = [o for o in outs if o.kind == "exc"]
